@@ -103,16 +103,19 @@ struct Frame {
 fn gen_frame(rng: &mut Prng, pool: &Pool, idx: usize, serial: u32, body_len: usize, fds: &[usize]) -> Frame {
     let bo = if rng.chance(1, 3) { ByteOrder::BigEndian } else { ByteOrder::LittleEndian };
     let member = format!("M{}x{}", idx, rng.below(1000));
+    // the object path is the last header field of a message without body: its length decides the size of
+    // the header modulo 8, i.e. the padding in front of the body (all residues must occur)
+    let path = *rng.pick(&["/", "/o", "/ab", "/p/q", "/abcd", "/ab/cd", "/abcdef", "/abc/def"]);
     let mut msg = match rng.below(4) {
-        0 => MessageBuilder::with_byteorder(bo).signal("a.b", member.clone(), "/o").build(),
-        1 => MessageBuilder::with_byteorder(bo).call(member.clone()).on("/p/q").build(),
+        0 => MessageBuilder::with_byteorder(bo).signal("a.b", member.clone(), path).build(),
+        1 => MessageBuilder::with_byteorder(bo).call(member.clone()).on(path).build(),
         2 => MessageBuilder::with_byteorder(bo)
             .call(member.clone())
-            .on("/p")
+            .on(path)
             .with_interface("io.killing.spark")
             .at("x.y.z")
             .build(),
-        _ => MessageBuilder::with_byteorder(bo).signal("some.inter.face", member.clone(), "/").to(":1.7").build(),
+        _ => MessageBuilder::with_byteorder(bo).signal("some.inter.face", member.clone(), path).to(":1.7").build(),
     };
     if body_len > 0 {
         let data: Vec<u8> = (0..body_len).map(|_| rng.next() as u8).collect();
@@ -126,6 +129,10 @@ fn gen_frame(rng: &mut Prng, pool: &Pool, idx: usize, serial: u32, body_len: usi
                 msg.body.push_param(data.as_slice()).unwrap();
                 msg.body.push_param(rng.next() as u16).unwrap()
             }
+        }
+        // the signature is the last header field of a message with a body and without descriptors: vary its length
+        for _ in 0..rng.below(8) {
+            msg.body.push_param(rng.next() as u8).unwrap();
         }
     }
     for id in fds {
@@ -406,6 +413,11 @@ impl<'a> Runner<'a> {
         for f in frames {
             starts.push(p);
             p += f.bytes.len();
+            if valid && f.bytes.len() >= 16 {
+                let w = [f.bytes[12], f.bytes[13], f.bytes[14], f.bytes[15]];
+                let fl = if f.bytes[0] == b'l' { u32::from_le_bytes(w) } else { u32::from_be_bytes(w) };
+                self.out.hit(&format!("hdr_len_mod8_{}", (16 + fl as usize) % 8));
+            }
         }
         let mut s = Scn {
             frames,
@@ -706,6 +718,28 @@ pub fn run(cfg: &Cfg) {
             for pol in policies.iter() {
                 let ch = chunks_from(&BTreeSet::new(), &frames);
                 rn.scenario(&mut rng, &frames, &ch, *pol, true, "onewrite");
+            }
+        }
+        // every size of the header modulo 8 (every amount of padding in front of the body): messages without
+        // descriptors, so that the last header field is a path or a signature of varying length
+        let nres = if cfg.thorough { 60 } else { 20 };
+        for ri in 0..nres {
+            let frames: Vec<Frame> = (0..2)
+                .map(|i| {
+                    serial += 1;
+                    let body_len = if rng.chance(1, 2) { 0 } else { rng.range(1, 40) as usize };
+                    gen_frame(&mut rng, &pool, i, serial, body_len, &[])
+                })
+                .collect();
+            let total: usize = frames.iter().map(|f| f.bytes.len()).sum();
+            for (pi, pol) in [Policy::GetEach, Policy::ReadLoop, Policy::FullRead(0), Policy::ReadOnly].iter().enumerate() {
+                let sp = if (ri + pi) % 2 == 0 {
+                    BTreeSet::new()
+                } else {
+                    BTreeSet::from([rng.range(1, total as u64 - 1) as usize, rng.range(1, total as u64 - 1) as usize])
+                };
+                let ch = chunks_from(&sp, &frames);
+                rn.scenario(&mut rng, &frames, &ch, *pol, true, "hdr_padding");
             }
         }
         // bodies beyond the 64 KiB growth step
